@@ -216,6 +216,7 @@ func (s *script) Modify(ms spb.GRIBI_ModifyServer) error {
 	rt.Emit("srv-stream", s.streams)
 	clean := s.streams > 1
 	seen := 0
+	lateParams := false
 	for {
 		in, err := ms.Recv()
 		if err == io.EOF {
@@ -227,6 +228,13 @@ func (s *script) Modify(ms spb.GRIBI_ModifyServer) error {
 		rt.Emit("srv-recv", describe(in))
 		switch {
 		case in.Params != nil:
+			// the answer to the session parameters may overtake nothing, but nothing obliges the server to send it
+			// before it starts answering operations: optionally it is sent after the first batch of results
+			if !clean && len(s.plans) > 0 && rt.Choose(2, 0, "params-answer") == 1 {
+				lateParams = true
+				rt.Emit("params-late", true)
+				continue
+			}
 			ms.Send(&spb.ModifyResponse{SessionParamsResult: &spb.SessionParametersResult{Status: spb.SessionParametersResult_OK}})
 		case in.ElectionId != nil:
 			ms.Send(&spb.ModifyResponse{ElectionId: in.ElectionId})
@@ -244,7 +252,11 @@ func (s *script) Modify(ms spb.GRIBI_ModifyServer) error {
 			}
 			p := s.plans[rt.Choose(len(s.plans), 0, "reply-plan")]
 			rt.Emit("plan", p)
-			for _, b := range p.batches {
+			for bi, b := range p.batches {
+				if bi == 1 && lateParams {
+					lateParams = false
+					ms.Send(&spb.ModifyResponse{SessionParamsResult: &spb.SessionParametersResult{Status: spb.SessionParametersResult_OK}})
+				}
 				var rs []*spb.AFTResult
 				for _, it := range b {
 					rs = append(rs, &spb.AFTResult{Id: it.id, Status: it.st})
@@ -253,6 +265,10 @@ func (s *script) Modify(ms spb.GRIBI_ModifyServer) error {
 					rt.Emit("srv-sent", it)
 				}
 				ms.Send(&spb.ModifyResponse{Result: rs})
+			}
+			if lateParams {
+				lateParams = false
+				ms.Send(&spb.ModifyResponse{SessionParamsResult: &spb.SessionParametersResult{Status: spb.SessionParametersResult_OK}})
 			}
 		}
 	}
@@ -735,6 +751,10 @@ func merge(rep *report.Report, name string, res mc.SchedResult, bound int) {
 	if res.EngineError != "" {
 		rep.EngineError("%s: %s", name, res.EngineError)
 	}
+	if res.CacheDiff != "" {
+		rep.Set("cache_selftest:"+name, res.CacheDiff)
+	}
+	rep.Add("pruned_at_visited_states", res.Pruned)
 	rep.Add("states", res.Execs)
 	rep.Add("transitions", res.Steps)
 	rep.Add("traces_validated_against_impl", res.Execs)
